@@ -1,0 +1,71 @@
+//go:build verif
+
+package gradtrack
+
+import "github.com/sahandsafizadeh/qeep/tensor/internal/tensor"
+
+// Verification hooks (build tag "verif"). They only observe; nothing in the
+// library reads what they record.
+
+// VerifEvent is emitted at the linearization points of a back-propagation:
+// after the reachable contexts were marked ("begin"), after the root was seeded
+// ("seed"), after a backward edge was evaluated and its result accumulated into
+// the target ("edge"; Applied is false when the target is untracked and the edge
+// was skipped) and before BackPropagate returns successfully ("end").
+type VerifEvent struct {
+	Kind     string
+	Root     *GradContext
+	Consumer *GradContext
+	Index    int
+	Target   tensor.Tensor
+	Applied  bool
+}
+
+// VerifSink receives the events; nil (the default) disables them. It must be set
+// before any concurrent use of the library and is never written by the library.
+var VerifSink func(VerifEvent)
+
+func verifBP(kind string, root *GradContext) {
+	if VerifSink == nil {
+		return
+	}
+
+	VerifSink(VerifEvent{Kind: kind, Root: root})
+}
+
+func verifEdge(root *GradContext, consumer *GradContext, edge *backwardEdge) {
+	if VerifSink == nil {
+		return
+	}
+
+	index := -1
+	for i, e := range consumer.backEdges {
+		if e == edge {
+			index = i
+		}
+	}
+
+	VerifSink(VerifEvent{
+		Kind:     "edge",
+		Root:     root,
+		Consumer: consumer,
+		Index:    index,
+		Target:   edge.target,
+		Applied:  gradContextOf(edge.target).tracked,
+	})
+}
+
+// VerifState projects the abstract state of a context.
+func (gctx *GradContext) VerifState() (tracked, spent, hasGrad bool, edges int) {
+	return gctx.tracked, gctx.bpdirty, gctx.gradient != nil, len(gctx.backEdges)
+}
+
+// VerifTargets lists the operands the context's backward edges point to.
+func (gctx *GradContext) VerifTargets() (targets []tensor.Tensor) {
+	targets = make([]tensor.Tensor, len(gctx.backEdges))
+	for i, e := range gctx.backEdges {
+		targets[i] = e.target
+	}
+
+	return targets
+}
